@@ -101,6 +101,47 @@ theorem read_missing_value_mask (v : Arr) (mv : Rat) :
   intro c _
   simp [NcType.isInt]
 
+/-! ### writing results together and reading one of them back -/
+
+/-- **C18, write then read back.**  Results of one grid (`n` cells each) are written together; the `j`-th variable is then read with the default options.
+What comes back has the result's shape and, cell by cell, is missing exactly where *some* result written with it is missing and holds the result's own
+value everywhere else.  (The library is assumed to return what was assigned - see the header of `Model/NetCdf`.) -/
+theorem write_read_round_trip (a0 : Arr) (rest : List Arr) (n : Nat) (h0 : a0.cells.length = n) (hr : ∀ b ∈ rest, b.cells.length = n)
+    (j : Nat) (a : Arr) (hj : (a0 :: rest)[j]? = some a) :
+    ∃ w r, (ncWrite (a0 :: rest))[j]? = some w ∧ ncRead (some w) .float none = .ok r ∧ r.shape = a.shape ∧ r.dtype = .float ∧ r.vis.length = n ∧
+      ∀ i, i < n → r.vis[i]? = some (if (a0 :: rest).any (fun b => (b.cells.getD i default).mask) then none else some (a.cells.getD i default).val) := by
+  obtain ⟨_, hw⟩ := ncWrite_spec (a0 :: rest)
+  obtain ⟨w, hwj, hws, _, hwc⟩ := hw j a hj
+  obtain ⟨r, hrd, hrt, hrs, hrv⟩ := read_default w
+  have ha : a.cells.length = n := by
+    rcases List.mem_cons.mp (List.mem_of_getElem? hj) with rfl | hm
+    · exact h0
+    · exact hr a hm
+  have hul := unionMask_length a0 rest n h0 hr
+  refine ⟨w, r, hwj, hrd, by rw [hrs, hws], hrt, ?_, ?_⟩
+  · rw [hrv]; simp [Arr.vis, hwc, ha, hul]
+  · intro i hi
+    rw [hrv]
+    have hu := unionMask_spec a0 rest n i h0 hr hi
+    have hai : a.cells[i]? = some (a.cells.getD i default) := by
+      simp [List.getD, List.getElem?_eq_getElem (by omega : i < a.cells.length)]
+    simp only [Arr.vis, hwc, List.getElem?_map, List.getElem?_zipWith, hai, hu, Option.map_some, Option.some.injEq]
+    cases hany : (a0 :: rest).any (fun b => (b.cells.getD i default).mask) <;> simp [Cell.vis, hany]
+
+/-- in particular a result written alone comes back exactly as it was seen: same shape, same missing cells, same values -/
+theorem write_alone_read_back (a : Arr) : ∃ w r, ncWrite [a] = [w] ∧ ncRead (some w) .float none = .ok r ∧ r.shape = a.shape ∧ r.vis = a.vis := by
+  refine ⟨_, _, rfl, rfl, rfl, ?_⟩
+  simp only [Arr.vis, unionMask, List.foldl_nil, List.map_map]
+  rw [List.zipWith_map_right]
+  simp only [List.zipWith_self, List.map_map]
+  apply List.map_congr_left
+  intro c _
+  cases hm : c.mask <;> simp [Cell.vis, hm, NcType.isInt]
+
+/-- non-vacuity: two results with different missing cells -/
+example : ∃ w r, (ncWrite [⟨.float, [2], [⟨1, false⟩, ⟨2, true⟩]⟩, ⟨.float, [2], [⟨3, true⟩, ⟨4, false⟩]⟩])[1]? = some w ∧
+    ncRead (some w) .float none = .ok r ∧ r.vis = [none, none] := ⟨_, _, rfl, rfl, by decide +kernel⟩
+
 /-- rounding to an integer type is to nearest, ties to even -/
 example : rintRat (5/2) = 2 ∧ rintRat (7/2) = 4 ∧ rintRat (-5/2) = -2 ∧ rintRat (13/10) = 1 ∧ rintRat (-17/10) = -2 ∧ rintRat 3 = 3 := by
   decide +kernel
